@@ -1,5 +1,6 @@
 import Rustemo.Model.Dump
 import Rustemo.Model.Print
+import Rustemo.Model.Cert
 /-!
 Line-protocol driver: one request per line on stdin, one answer per line on stdout.
 
@@ -24,6 +25,7 @@ def handle (st : DState) (line : String) : DState × String :=
   | "load" =>
     let d := Dump.parse rest
     ({ st with dump := d }, s!"loaded {d.table.states.size}")
+  | "rawdet" => (st, if st.dump.table.rawDeterministic st.dump.grammar then "1" else "0")
   | "lr" =>
     match rest.splitOn " #" with
     | [req, mat] =>
